@@ -3,33 +3,18 @@
 package main
 
 import (
-	"context"
 	"fmt"
 	"os"
 	"path/filepath"
-	"reflect"
-	"runtime"
-	"sort"
 	"strconv"
 	"strings"
-	"sync"
-	"time"
-	"unsafe"
-
-	"github.com/pinealctx/neptune/queue/priq"
-	"github.com/pinealctx/neptune/queue/syncq"
-	"github.com/pinealctx/neptune/syncx/pipe/async"
-	"github.com/pinealctx/neptune/syncx/pipe/mq"
-	"github.com/pinealctx/neptune/syncx/pipe/mux"
-	pq "github.com/pinealctx/neptune/syncx/pipe/q"
 
 	"nvharness/lib/c12facts"
-	"nvharness/lib/c12sched"
+	"nvharness/lib/c13run"
 	"nvharness/lib/corr"
 	"nvharness/lib/gofacts"
 	_ "nvharness/lib/quiet"
 	"nvharness/lib/rng"
-	"nvharness/lib/sched"
 )
 
 func main() {
@@ -77,7 +62,7 @@ func stress(args []string) {
 	seen := map[string]int{}
 	dis, hits := 0, 0
 	for i := 0; i < n; i++ {
-		res := runCase(corr.Case{Lines: lines})
+		res := c13run.RunCase("C13", corr.Case{Lines: lines})
 		seen[strings.Join(res.Outs, " | ")]++
 		hits += len(res.Hits)
 		for j := range want {
@@ -111,727 +96,6 @@ func extract(repo, leanDir string) {
 		os.Exit(2)
 	}
 	fmt.Println(summary)
-}
-
-// ---------------------------------------------------------------- the real queues
-
-type listQ interface {
-	add(x int) string
-	prior(x int) (string, bool)
-	addc(x int) (string, bool)
-	priorc(x int) (string, bool)
-	pop() string
-	popany() (string, bool)
-	close()
-}
-
-func errName(err error, closed, full, ctrlFull error) string {
-	switch {
-	case err == nil:
-		return "ok"
-	case err == closed:
-		return "closed"
-	case err == full:
-		return "full"
-	case ctrlFull != nil && err == ctrlFull:
-		return "ctrl-full"
-	}
-	return "err:" + err.Error()
-}
-
-func valName(v interface{}, err error, closed error) string {
-	if err != nil {
-		if err == closed {
-			return "closed"
-		}
-		return "err:" + err.Error()
-	}
-	if i, ok := v.(int); ok {
-		return "v:" + strconv.Itoa(i)
-	}
-	return fmt.Sprintf("v?%v", v)
-}
-
-type qQ struct{ q *pq.Q }
-
-func (a qQ) add(x int) string { return errName(a.q.AddReq(x), pq.ErrClosed, pq.ErrReqQFull, nil) }
-func (a qQ) prior(x int) (string, bool) {
-	return errName(a.q.AddPriorReq(x), pq.ErrClosed, pq.ErrReqQFull, nil), true
-}
-func (a qQ) addc(int) (string, bool)   { return "", false }
-func (a qQ) priorc(int) (string, bool) { return "", false }
-func (a qQ) pop() string               { v, e := a.q.Pop(); return valName(v, e, pq.ErrClosed) }
-func (a qQ) popany() (string, bool) {
-	v, e := a.q.PopAnyway()
-	return valName(v, e, pq.ErrClosed), true
-}
-func (a qQ) close() { a.q.Close() }
-
-type asyncQ struct{ q *async.Q }
-
-func (a asyncQ) add(x int) string { return errName(a.q.Add(x), async.ErrClosed, async.ErrFull, nil) }
-func (a asyncQ) prior(x int) (string, bool) {
-	return errName(a.q.AddPrior(x), async.ErrClosed, async.ErrFull, nil), true
-}
-func (a asyncQ) addc(int) (string, bool)   { return "", false }
-func (a asyncQ) priorc(int) (string, bool) { return "", false }
-func (a asyncQ) pop() string               { v, e := a.q.Pop(); return valName(v, e, async.ErrClosed) }
-func (a asyncQ) popany() (string, bool) {
-	v, e := a.q.PopAnyway()
-	return valName(v, e, async.ErrClosed), true
-}
-func (a asyncQ) close() { a.q.Close() }
-
-type muxQ struct{ q *mux.Q }
-
-func (a muxQ) add(x int) string { return errName(a.q.AddReq(x), mux.ErrClosed, mux.ErrQFull, nil) }
-func (a muxQ) prior(x int) (string, bool) {
-	return errName(a.q.AddPriorReq(x), mux.ErrClosed, mux.ErrQFull, nil), true
-}
-func (a muxQ) addc(int) (string, bool)   { return "", false }
-func (a muxQ) priorc(int) (string, bool) { return "", false }
-func (a muxQ) pop() string               { v, e := a.q.Pop(); return valName(v, e, mux.ErrClosed) }
-func (a muxQ) popany() (string, bool) {
-	v, e := a.q.PopAnyway()
-	return valName(v, e, mux.ErrClosed), true
-}
-func (a muxQ) close() { a.q.Close() }
-
-type mqQ struct{ q *mq.MQ }
-
-func (a mqQ) add(x int) string {
-	return errName(a.q.AddReq(x), mq.ErrClosed, mq.ErrReqQFull, mq.ErrCtrlQFull)
-}
-func (a mqQ) prior(x int) (string, bool) {
-	return errName(a.q.AddPriorReq(x), mq.ErrClosed, mq.ErrReqQFull, mq.ErrCtrlQFull), true
-}
-func (a mqQ) addc(x int) (string, bool) {
-	return errName(a.q.AddCtrl(x), mq.ErrClosed, mq.ErrReqQFull, mq.ErrCtrlQFull), true
-}
-func (a mqQ) priorc(x int) (string, bool) {
-	return errName(a.q.AddPriorCtrl(x), mq.ErrClosed, mq.ErrReqQFull, mq.ErrCtrlQFull), true
-}
-func (a mqQ) pop() string { v, e := a.q.Pop(); return valName(v, e, mq.ErrClosed) }
-func (a mqQ) popany() (string, bool) {
-	v, e := a.q.PopAnyway()
-	return valName(v, e, mq.ErrClosed), true
-}
-func (a mqQ) close() { a.q.Close() }
-
-type syncQ struct{ q *syncq.SyncQueue }
-
-func (a syncQ) add(x int) string          { a.q.Push(x); return "ok" }
-func (a syncQ) prior(int) (string, bool)  { return "", false }
-func (a syncQ) addc(int) (string, bool)   { return "", false }
-func (a syncQ) priorc(int) (string, bool) { return "", false }
-func (a syncQ) pop() string {
-	v := a.q.Pop()
-	if v == nil {
-		return "nil"
-	}
-	return valName(v, nil, nil)
-}
-func (a syncQ) popany() (string, bool) { return "", false }
-func (a syncQ) close()                 { a.q.Close() }
-
-// wakeAllForCleanup releases consumers a defective Close left behind, AFTER all observations of the script were made
-// (only so that goroutines do not accumulate over thousands of scripts). It reaches the queue's unexported condition
-// variable (`popable *sync.Cond` in SyncQueue, `cond sync.Cond` in the pipe queues) through reflect/unsafe.
-func wakeAllForCleanup(adapter interface{}) {
-	q := reflect.ValueOf(adapter).Field(0) // the adapters are one-field structs holding the queue pointer
-	if q.Kind() != reflect.Ptr || q.IsNil() {
-		return
-	}
-	v := q.Elem()
-	if f := v.FieldByName("popable"); f.IsValid() && f.Kind() == reflect.Ptr && !f.IsNil() {
-		if c := *(**sync.Cond)(unsafe.Pointer(f.UnsafeAddr())); c != nil {
-			c.Broadcast()
-		}
-	}
-	if f := v.FieldByName("cond"); f.IsValid() && f.Kind() == reflect.Struct && f.Type() == reflect.TypeOf(sync.Cond{}) {
-		(*sync.Cond)(unsafe.Pointer(f.UnsafeAddr())).Broadcast()
-	}
-}
-
-type entry struct{ item, prio int }
-
-func (e entry) GetPriority() int { return e.prio }
-
-// ---------------------------------------------------------------- running a script, with the monitors
-
-type runner struct {
-	kind    string
-	lq      listQ
-	pq      *priq.PriQueue
-	s       *sched.S
-	tasks   []*sched.Task
-	seenRet map[*sched.Task]bool
-	waiter  map[*sched.Task]string // tasks blocked in WaitClose / WaitClear ("close" / "clear")
-	cleared bool
-	ctx     context.Context
-	cancel  context.CancelFunc
-	quit    chan struct{}
-	hits    []corr.Hit
-	seen    map[string]bool
-	dead    string
-	// what the monitors need, all taken from results of the real calls
-	closed   bool
-	accepted map[int]int // how often each item value was accepted by an add (scripts may repeat a value)
-	handed   map[int]int // how often it was handed out
-	holders  int         // priq: successful `recv`s not yet followed by a `pop`
-}
-
-func (r *runner) hit(site, what, detail string) {
-	key := "C13:" + r.kind + "." + site + ":" + what
-	if r.seen[key] {
-		return
-	}
-	r.seen[key] = true
-	r.hits = append(r.hits, corr.Hit{Key: key, What: detail})
-}
-
-func atoiStrict(s string, neg bool) (int, bool) {
-	// digits only (optional leading '-' when neg); the whole int64 range is accepted (extreme priorities), nothing beyond
-	if s == "" || len(s) > 20 {
-		return 0, false
-	}
-	t := s
-	if neg && t[0] == '-' {
-		t = t[1:]
-	}
-	if t == "" {
-		return 0, false
-	}
-	for _, c := range t {
-		if c < '0' || c > '9' {
-			return 0, false
-		}
-	}
-	n, err := strconv.ParseInt(s, 10, 64)
-	return int(n), err == nil
-}
-
-func (r *runner) create(f []string) string {
-	r.lq, r.pq, r.kind = nil, nil, "none"
-	switch {
-	case len(f) == 4 && f[1] == "mq":
-		a, ok1 := atoiStrict(f[2], true)
-		c, ok2 := atoiStrict(f[3], true)
-		if !ok1 || !ok2 {
-			return "bad-op"
-		}
-		r.kind, r.lq = "mq", mqQ{mq.NewMQ(mq.WithQCtrlSize(a), mq.WithQReqSize(c))}
-	case len(f) == 2 && f[1] == "syncq":
-		r.kind, r.lq = "syncq", syncQ{syncq.NewSyncQueue()}
-	case len(f) == 3 && (f[1] == "q" || f[1] == "async" || f[1] == "mux" || f[1] == "priq"):
-		a, ok := atoiStrict(f[2], true)
-		if !ok {
-			return "bad-op"
-		}
-		r.kind = f[1]
-		switch f[1] {
-		case "q":
-			r.lq = qQ{pq.NewQ(pq.WithSize(a))}
-		case "async":
-			r.lq = asyncQ{async.NewQ(a)}
-		case "mux":
-			r.lq = muxQ{mux.NewQ(a)}
-		case "priq":
-			r.pq = priq.NewPriQueue(a)
-		}
-	default:
-		return "bad-op"
-	}
-	return "ok"
-}
-
-// quiesce waits until every consumer goroutine has returned or is parked, and reports the results of the consumers
-// that returned since the last call (except `skip`) and the number still parked.
-func (r *runner) quiesce(skip *sched.Task) (rets []string, parked int, ok bool) {
-	live := false
-	for _, t := range r.tasks {
-		if !r.seenRet[t] {
-			live = true
-		}
-	}
-	if live {
-		if err := c12sched.Settle(10 * time.Second); err != nil {
-			r.dead = "harness:" + strings.SplitN(err.Error(), "\n", 2)[0]
-			return nil, 0, false
-		}
-	}
-	for _, t := range r.tasks {
-		if r.seenRet[t] {
-			continue
-		}
-		if d, res := t.Done(); d {
-			r.seenRet[t] = true
-			r.noteHanded(res)
-			if t != skip {
-				rets = append(rets, res)
-			}
-		} else {
-			parked++
-		}
-	}
-	sort.Strings(rets)
-	return rets, parked, true
-}
-
-func (r *runner) noteHanded(res string) {
-	if !strings.HasPrefix(res, "v:") {
-		return
-	}
-	v, err := strconv.Atoi(res[2:])
-	if err != nil {
-		return
-	}
-	if r.handed[v] >= r.accepted[v] {
-		r.hit("Pop", "item-duplicated-or-invented", fmt.Sprintf("a consumer returned item %d (accepted %d time(s), already handed out %d time(s))", v, r.accepted[v], r.handed[v]))
-	}
-	r.handed[v]++
-}
-
-func (r *runner) outstanding() int {
-	n := 0
-	for v, a := range r.accepted {
-		if a > r.handed[v] {
-			n += a - r.handed[v]
-		}
-	}
-	return n
-}
-
-func suffix(rets []string, parked int) string {
-	return " ret=[" + strings.Join(rets, ",") + "] parked=" + strconv.Itoa(parked)
-}
-
-// monitorQuiescent: the property on the observable state at a quiescent point of a list queue
-func (r *runner) monitorQuiescent(op string, _ int) {
-	consumers, wclose, wclear := 0, 0, 0
-	for _, t := range r.tasks {
-		if d, _ := t.Done(); d {
-			continue
-		}
-		switch r.waiter[t] {
-		case "close":
-			wclose++
-		case "clear":
-			wclear++
-		default:
-			consumers++
-		}
-	}
-	if r.closed && wclose > 0 {
-		r.hit("Close", "WaitClose-not-released", fmt.Sprintf("after `%s`: the queue is closed and %d caller(s) are still blocked in WaitClose", op, wclose))
-	}
-	if r.cleared && wclear > 0 {
-		r.hit("TryClear", "WaitClear-not-released", fmt.Sprintf("after `%s`: the queue is cleared and %d caller(s) are still blocked in WaitClear", op, wclear))
-	}
-	if consumers == 0 {
-		return
-	}
-	if r.closed {
-		r.hit("Close", "blocked-consumer-not-released", fmt.Sprintf("after `%s`: the queue is closed and %d consumer(s) are still parked in Pop", op, consumers))
-	} else if n := r.outstanding(); n > 0 {
-		r.hit("Pop", "consumer-parked-beside-item", fmt.Sprintf("after `%s`: %d consumer(s) parked in Pop while %d accepted item(s) have not been handed out", op, consumers, n))
-	}
-}
-
-func (r *runner) line(l string) string {
-	f := strings.Fields(l)
-	if len(f) == 0 {
-		return "bad-op"
-	}
-	if f[0] == "new" {
-		return r.create(f)
-	}
-	if r.lq == nil && r.pq == nil {
-		return "bad-op"
-	}
-	if r.dead != "" {
-		return "aborted:" + r.dead
-	}
-	if r.pq != nil {
-		return r.priLine(f, l)
-	}
-	isMQ, isSync := r.kind == "mq", r.kind == "syncq"
-	finish := func(res string) string {
-		rets, parked, ok := r.quiesce(nil)
-		if !ok {
-			return "harness-error"
-		}
-		r.monitorQuiescent(l, parked)
-		return res + suffix(rets, parked)
-	}
-	// producer-side events usable inside an `atomic` burst: validated first, executed by the returned closure
-	burstEv := func(ev []string) func() string {
-		if len(ev) == 0 {
-			return nil
-		}
-		switch ev[0] {
-		case "add", "prior", "addc", "priorc":
-			if len(ev) != 2 {
-				return nil
-			}
-			x, ok := atoiStrict(ev[1], false)
-			if !ok || (ev[0] == "prior" && isSync) || ((ev[0] == "addc" || ev[0] == "priorc") && !isMQ) {
-				return nil
-			}
-			op := ev[0]
-			return func() string {
-				var res string
-				switch op {
-				case "add":
-					res = r.lq.add(x)
-				case "prior":
-					res, _ = r.lq.prior(x)
-				case "addc":
-					res, _ = r.lq.addc(x)
-				default:
-					res, _ = r.lq.priorc(x)
-				}
-				if res == "ok" && !(isSync && r.closed) {
-					r.accepted[x]++
-				}
-				return res
-			}
-		case "close":
-			if len(ev) != 1 {
-				return nil
-			}
-			return func() string { r.lq.close(); r.closed = true; return "ok" }
-		case "tryclose":
-			if len(ev) != 1 || !isMQ {
-				return nil
-			}
-			return func() string {
-				got := r.lq.(mqQ).q.TryClose()
-				if got {
-					r.closed = true
-				}
-				return strconv.FormatBool(got)
-			}
-		}
-		return nil
-	}
-	switch f[0] {
-	case "atomic":
-		// The events run back to back on a single P so that consumers woken by one of them USUALLY cannot resume before
-		// the last one returned — this makes the window between a wake-up and the woken consumer's re-acquisition of the
-		// lock likely to be hit on the real code. Nothing depends on it being hit: the oracle answers a burst with the set
-		// of outcomes of all placements of the resumes, and window defects are reported by the quiescence monitors.
-		var segs [][]string
-		cur := []string{}
-		for _, w := range f[1:] {
-			if w == ";" {
-				segs = append(segs, cur)
-				cur = []string{}
-			} else {
-				cur = append(cur, w)
-			}
-		}
-		segs = append(segs, cur)
-		var fns []func() string
-		for _, ev := range segs {
-			fn := burstEv(ev)
-			if fn == nil {
-				return "bad-op"
-			}
-			fns = append(fns, fn)
-		}
-		var outs []string
-		prev := runtime.GOMAXPROCS(1)
-		// one trip through the scheduler on the P we ended up on: sysmon's record of that P may be stale (it was idle
-		// while we ran elsewhere) and would otherwise let it preempt us at once, resuming a woken consumer mid-burst
-		runtime.Gosched()
-		for _, fn := range fns {
-			outs = append(outs, fn())
-		}
-		runtime.GOMAXPROCS(prev)
-		return finish(strings.Join(outs, ";"))
-	case "pop", "popany":
-		if len(f) != 1 || (f[0] == "popany" && isSync) {
-			return "bad-op"
-		}
-		var t *sched.Task
-		if f[0] == "pop" {
-			t = r.s.Go("pop", r.lq.pop)
-		} else {
-			t = r.s.Go("popany", func() string { s, _ := r.lq.popany(); return s })
-		}
-		r.tasks = append(r.tasks, t)
-		rets, parked, ok := r.quiesce(t)
-		if !ok {
-			return "harness-error"
-		}
-		r.monitorQuiescent(l, parked)
-		return t.State() + suffix(rets, parked)
-	case "add", "prior", "addc", "priorc":
-		if len(f) != 2 {
-			return "bad-op"
-		}
-		x, ok := atoiStrict(f[1], false)
-		if !ok {
-			return "bad-op"
-		}
-		var res string
-		has := true
-		switch f[0] {
-		case "add":
-			res = r.lq.add(x)
-		case "prior":
-			res, has = r.lq.prior(x)
-		case "addc":
-			res, has = r.lq.addc(x)
-		case "priorc":
-			res, has = r.lq.priorc(x)
-		}
-		if !has {
-			return "bad-op"
-		}
-		if res == "ok" && !(isSync && r.closed) {
-			r.accepted[x]++
-		}
-		return finish(res)
-	case "close":
-		if len(f) != 1 {
-			return "bad-op"
-		}
-		r.lq.close()
-		r.closed = true
-		return finish("ok")
-	case "tryclose", "tryclear":
-		if len(f) != 1 || !isMQ {
-			return "bad-op"
-		}
-		m := r.lq.(mqQ).q
-		var got bool
-		if f[0] == "tryclose" {
-			got = m.TryClose()
-			if got {
-				r.closed = true
-			}
-		} else {
-			got = m.TryClear()
-			if got {
-				r.cleared = true
-			}
-		}
-		return finish(strconv.FormatBool(got))
-	case "waitclose", "waitclear":
-		if len(f) != 1 {
-			return "bad-op"
-		}
-		var call func(context.Context) error
-		switch q := r.lq.(type) {
-		case muxQ:
-			if f[0] == "waitclose" {
-				call = q.q.WaitClose
-			}
-		case mqQ:
-			call = q.q.WaitClose
-			if f[0] == "waitclear" {
-				call = q.q.WaitClear
-			}
-		}
-		if call == nil {
-			return "bad-op"
-		}
-		ctx := r.ctx
-		t := r.s.Go(f[0], func() string {
-			if err := call(ctx); err != nil {
-				return "err:" + err.Error()
-			}
-			return "ok"
-		})
-		r.tasks = append(r.tasks, t)
-		r.waiter[t] = strings.TrimPrefix(f[0], "wait")
-		rets, parked, ok := r.quiesce(t)
-		if !ok {
-			return "harness-error"
-		}
-		r.monitorQuiescent(l, parked)
-		return t.State() + suffix(rets, parked)
-	case "trypop":
-		if len(f) != 1 || !isSync {
-			return "bad-op"
-		}
-		v, ok := r.lq.(syncQ).q.TryPop()
-		res := "none"
-		if ok && v == nil {
-			res = "closed"
-		} else if ok {
-			res = valName(v, nil, nil)
-			r.noteHanded(res)
-		}
-		return finish(res)
-	}
-	return "bad-op"
-}
-
-func (r *runner) priLine(f []string, l string) string {
-	finish := func(res string, skip *sched.Task) string {
-		rets, parked, ok := r.quiesce(skip)
-		if !ok {
-			return "harness-error"
-		}
-		// the property at a quiescent point: no Push/Pop in progress (calls are sequential), no unfollowed signal held
-		n, w := r.pq.Len(), len(r.pq.WaitCh())
-		if n > 0 && r.holders == 0 && w == 0 {
-			r.hit("WaitCh", "not-readable-beside-items", fmt.Sprintf("after `%s`: %d entries queued, nobody holds a signal, yet len(WaitCh())=0", l, n))
-		}
-		if n > 0 && parked > 0 && r.holders == 0 {
-			r.hit("WaitCh", "consumer-sleeps-beside-items", fmt.Sprintf("after `%s`: %d consumer(s) blocked on WaitCh() while %d entries are queued", l, parked, n))
-		}
-		if skip != nil {
-			res = skip.State() // read only after quiescence
-		}
-		return res + suffix(rets, parked)
-	}
-	switch f[0] {
-	case "push":
-		if len(f) != 3 {
-			return "bad-op"
-		}
-		x, ok1 := atoiStrict(f[1], false)
-		p, ok2 := atoiStrict(f[2], true)
-		if !ok1 || !ok2 {
-			return "bad-op"
-		}
-		err := r.pq.Push(entry{x, p})
-		res := "ok"
-		if err == priq.ErrQueueIsFull {
-			res = "full"
-		} else if err != nil {
-			res = "err:" + err.Error()
-		} else {
-			r.accepted[x]++
-		}
-		return finish(res, nil)
-	case "pop":
-		if len(f) != 1 {
-			return "bad-op"
-		}
-		e := r.pq.Pop()
-		if r.holders > 0 {
-			r.holders--
-		}
-		res := "nil"
-		if e != nil {
-			res = "v:" + strconv.Itoa(e.(entry).item)
-			r.noteHanded(res)
-		}
-		return finish(res, nil)
-	case "recv":
-		if len(f) != 1 {
-			return "bad-op"
-		}
-		res := "empty"
-		select {
-		case <-r.pq.WaitCh():
-			res = "got"
-			r.holders++
-		default:
-		}
-		return finish(res, nil)
-	case "waitlen":
-		if len(f) != 1 {
-			return "bad-op"
-		}
-		return finish(strconv.Itoa(len(r.pq.WaitCh())), nil)
-	case "len":
-		if len(f) != 1 {
-			return "bad-op"
-		}
-		return finish(strconv.Itoa(r.pq.Len()), nil)
-	case "consume":
-		if len(f) != 1 {
-			return "bad-op"
-		}
-		q, quit := r.pq, r.quit
-		t := r.s.Go("consume", func() string {
-			select {
-			case <-q.WaitCh():
-				e := q.Pop()
-				if e == nil {
-					return "nil"
-				}
-				return "v:" + strconv.Itoa(e.(entry).item)
-			case <-quit:
-				return "quit"
-			}
-		})
-		r.tasks = append(r.tasks, t)
-		return finish("", t)
-	}
-	return "bad-op"
-}
-
-func runCase(c corr.Case) (res corr.Result) {
-	r := &runner{s: sched.New(), seen: map[string]bool{}, seenRet: map[*sched.Task]bool{}, waiter: map[*sched.Task]string{}, accepted: map[int]int{}, handed: map[int]int{},
-		quit: make(chan struct{})}
-	r.ctx, r.cancel = context.WithCancel(context.Background())
-	reset := func() {
-		r.cleanup()
-		r.tasks, r.seenRet, r.accepted, r.handed = nil, map[*sched.Task]bool{}, map[int]int{}, map[int]int{}
-		r.waiter, r.cleared = map[*sched.Task]string{}, false
-		r.ctx, r.cancel = context.WithCancel(context.Background())
-		r.closed, r.holders, r.dead, r.quit = false, 0, "", make(chan struct{})
-	}
-	defer func() {
-		if p := recover(); p != nil {
-			for len(res.Outs) < len(c.Lines) {
-				res.Outs = append(res.Outs, fmt.Sprintf("panic:%v", p))
-			}
-			res.Hits = append(r.hits, corr.Hit{Key: "C13:" + r.kind + ":panic", What: fmt.Sprint(p)})
-		}
-		r.cleanup()
-	}()
-	for _, l := range c.Lines {
-		if strings.HasPrefix(l, "new") {
-			reset()
-		}
-		out := r.line(l)
-		if strings.HasPrefix(out, "aborted:harness") || out == "harness-error" {
-			fmt.Fprintln(os.Stderr, "harness error:", r.dead, "in", c.Lines)
-			os.Exit(2)
-		}
-		res.Outs = append(res.Outs, out)
-	}
-	res.Hits = r.hits
-	return res
-}
-
-// cleanup releases whatever is still parked, after all observations: close the queue, and for a consumer a defective
-// SyncQueue.Close left behind, broadcast on its condition variable.
-func (r *runner) cleanup() {
-	pending := false
-	for _, t := range r.tasks {
-		if d, _ := t.Done(); !d {
-			pending = true
-		}
-	}
-	if !pending {
-		return
-	}
-	if r.cancel != nil {
-		r.cancel() // WaitClose / WaitClear callers a defective Close left behind
-	}
-	if r.lq != nil {
-		r.lq.close()
-		_ = c12sched.Settle(10 * time.Second)
-		for _, t := range r.tasks {
-			if d, _ := t.Done(); !d { // somebody is still parked beside a closed queue (already reported by the monitor)
-				wakeAllForCleanup(r.lq)
-				break
-			}
-		}
-	}
-	if r.pq != nil {
-		close(r.quit)
-	}
-	_ = c12sched.Settle(10 * time.Second)
 }
 
 // ---------------------------------------------------------------- generators
@@ -1209,7 +473,7 @@ func spec() corr.Spec {
 			}
 			return genList(r, kind, r.Range(3, 22))
 		},
-		Run: runCase,
+		Run: func(c corr.Case) corr.Result { return c13run.RunCase("C13", c) },
 		NonTrivial: func(c corr.Case, r corr.Result) bool {
 			// some consumer was parked at some point and some consumer returned
 			parked, ret := false, false
